@@ -804,7 +804,13 @@ func flattenAnonPointer(key string, v SchemaRef, refsToReplace map[string]Schema
 
 	if (!asch.IsSimpleSchema || len(callers) > 1) && !parts.IsSharedParam() && !parts.IsSharedResponse() {
 		debugLog("replace JSON pointer at [%s] by definition: %s", key, v.Ref.String())
-		if err := namer.Name(v.Ref.String(), v.Schema, asch); err != nil {
+		// the namer works on keys, i.e. JSON pointers: $ref strings are URL-escaped
+		target, err := url.PathUnescape(v.Ref.String())
+		if err != nil {
+			return ErrAtKey(key, err)
+		}
+
+		if err := namer.Name(target, v.Schema, asch); err != nil {
 			return err
 		}
 
